@@ -40,7 +40,7 @@ func (c10) Cases(tier string, race bool) int {
 	return 150000
 }
 
-var c10keys = []string{"a", "b", "c", "k"}
+var c10keys = []string{"a", "b", "c", "k", "Kk", "aB"}
 
 type nv struct {
 	v   interface{}
@@ -340,6 +340,14 @@ func (c10) Case(c *core.Ctx) {
 	if sep != ":" {
 		mxj.SetFieldSeparator(sep)
 		defer mxj.SetFieldSeparator()
+	}
+	if r.Intn(4) == 0 {
+		// ambient decoder options that UpdateValuesForPath does not document as affecting it
+		mxj.CoerceKeysToLower(r.Intn(2) == 0)
+		mxj.CoerceKeysToSnakeCase(r.Intn(2) == 0)
+		mxj.SetAttrPrefix([]string{"@", "", "-"}[r.Intn(3)])
+		defer ResetDefaults()
+		c.Count("ambient:decoder-options")
 	}
 	c.Eval()
 	cnt, err := mxj.Map(root).UpdateValuesForPath(newVal, pathStr, specs...)
